@@ -77,7 +77,7 @@ theorem gen_save_prefix (size : List Char) (u : UBT) (old : Bytes) :
     rw [writeAt_zero, writeAt_after, frame_eq, torn]
     have : List.take ((body size u).length + i) (body size u ++ ['\x00']) = body size u ++ (['\x00'] : Bytes).take i := by
       rw [List.take_append]
-      simp
+      simp [List.take_of_length_le (Nat.le_add_right (body size u).length i)]
     rw [this]
     simp [List.drop_drop, List.length_take, Nat.min_eq_left hi, Nat.add_comm]
 
